@@ -37,6 +37,8 @@ VARIABLES
   tz,
   \* @type: Bool;
   sat,
+  \* @type: Bool;
+  big,
   \* @type: Int;
   wcls
 
@@ -53,9 +55,10 @@ Derived ==
   /\ hi = Hi(last, used, maxGas, ratio, init)
   /\ tz = Undefined(last, used, maxGas, ratio)
   /\ sat = Saturates(last, used, maxGas, ratio, comp, init)
+  /\ big = BigProduct(last, used, maxGas, ratio)
 
 InitAll == Domain /\ Derived /\ wcls = 0
-Next == UNCHANGED <<last, used, maxGas, ratio, comp, init, out, cls, lo, hi, tz, sat, wcls>>
+Next == UNCHANGED <<last, used, maxGas, ratio, comp, init, out, cls, lo, hi, tz, sat, big, wcls>>
 
 T == Target(maxGas, ratio)
 On == ~Disabled(last, ratio) /\ T >= 1
